@@ -451,6 +451,22 @@ vf::Result check(const Case& c) {
         if ((c.readmask >> i) & 1)
             vf::klass(std::string("epilogue reply into a ") + (reply_full ? "still-full" : "empty") + " reply mailbox");
     }
+    {
+        // semaphore epilogue: the value the DSP sets in its semaphore is what the host reads, whatever the host masked (the mask
+        // gates the interrupt, not the value): with every bit masked the host sets two bits, the DSP's routine echoes them into its
+        // own semaphore, and the host must observe them
+        t.MaskSemaphore(0xFFFF);
+        t.SetSemaphore(0x8001);
+        for (int k = 0; k < 8; ++k)
+            t.Run(128);
+        uint16_t seen = t.GetSemaphore();
+        if ((seen & 0x8001) != 0x8001)
+            return vf::Result::fail("C19:lost:semaphore:masked", "the DSP echoed semaphore bits 8001 but the host, having masked them, reads " + vf::hex(seen) +
+                                                                    " (the last value sent must be observed)");
+        t.ClearSemaphore(0x8001);
+        t.MaskSemaphore(0);
+        vf::klass("semaphore epilogue with all bits masked on the host side");
+    }
     vf::klass(overlap >= 10 ? "schedule with real overlap (>= 10 observed DSP progress changes)" : "schedule with little overlap");
     if (c.reenter)
         vf::klass("re-entrant host callbacks");
